@@ -13,15 +13,18 @@
      read_block = read_nonempty_block_with(parse_block):
              while read_frame_into()?.is_some() {  // < 18 bytes left: clean end
                  parse_block(frame, block)?;       // parse_frame (block untouched on Err), then
-                                                   // block_initialize (size, data pos 0, data len)
-                                                   // BEFORE inflate + CRC can fail
+                                                   // block_initialize (size, data pos 0, data len),
+                                                   // inflate + CRC; on their failure (fix da5f8c7)
+                                                   // block_invalidate: size and data length of the
+                                                   // PREVIOUS block restored, cursor = that length
+                                                   // (the block is left exhausted)
                  block.pos = position; position += block.size;
                  if block.data.len > 0 { return len } }
              return 0
 
    What is modelled is the call itself and what virtual_position() tells after it (also after an
-   Err: `?` leaves the block as it was when the error occurred); the model does not continue
-   after a hostile seek. *)
+   Err: `?` leaves the block as it was when the error occurred, i.e. untouched, or exhausted by
+   block_invalidate); [reads_b] continues a byte-level reader after errors (kind hread). *)
 From Coq Require Import List NArith Bool.
 From NV Require Import Base.LE Bgzf.Vpos Bgzf.Gzi Bgzf.ReaderOps.
 From NV Require Bgzf.Frame Bgzf.Reader Bgzf.Crc32 Bgzf.Inflate.
@@ -68,7 +71,8 @@ Section SeekBytes.
             | Frame.Err e => (pos, b, Err (cv_err e))
             | Frame.Panic => (pos, b, Panic)
             | Frame.Ok (bs, cdata, crc, isize) =>
-                let b1 := mkBlk (k_pos b) bs isize 0 in
+                (* block_invalidate after a failed inflate / CRC check *)
+                let b1 := mkBlk (k_pos b) (k_size b) (k_len b) (k_len b) in
                 match inflate cdata isize with
                 | None => (pos, b1, Err InvalidData)
                 | Some d =>
@@ -80,6 +84,65 @@ Section SeekBytes.
                 end
             end
         end
+    end.
+
+
+  (* ---- a byte-level reader that goes on after errors ------------------------------------- *)
+
+  (* rnb, also returning the bytes still ahead of the inner Cursor.  After a failed read_exact
+     std's Cursor is at the end of its data; a frame whose BSIZE is too small has consumed its
+     18-byte header only; a frame that fails in parse_frame / inflate / CRC was read completely.
+     Reader::position is not advanced by a failed frame. *)
+  Fixpoint rnbs (fuel : nat) (src : list N) (pos : N) (b : blk) : list N * N * blk * res N :=
+    match fuel with
+    | O => (src, pos, b, OutOfFuel)
+    | S k =>
+        match Reader.read_frame src with
+        | Frame.Ok None => ([], pos, b, Ok 0)
+        | Frame.Err Frame.UnexpectedEof => ([], pos, b, Err UnexpectedEof)
+        | Frame.Err e => (skipn 18 src, pos, b, Err (cv_err e))
+        | Frame.Panic => (src, pos, b, Panic)
+        | Frame.Ok (Some (fr, rest)) =>
+            match Frame.parse_frame fr with
+            | Frame.Err e => (rest, pos, b, Err (cv_err e))
+            | Frame.Panic => (rest, pos, b, Panic)
+            | Frame.Ok (bs, cdata, crc, isize) =>
+                let b1 := mkBlk (k_pos b) (k_size b) (k_len b) (k_len b) in
+                match inflate cdata isize with
+                | None => (rest, pos, b1, Err InvalidData)
+                | Some d =>
+                    if Crc32.crc32 d =? crc then
+                      let b2 := mkBlk pos bs isize 0 in
+                      if 0 <? isize then (rest, pos + bs, b2, Ok isize)
+                      else rnbs k rest (pos + bs) b2
+                    else (rest, pos, b1, Err InvalidData)
+                end
+            end
+        end
+    end.
+
+  Record bst := mkBst { s_src : list N; s_position : N; s_blk : blk }.
+
+  (* Read::read with a buffer of n < 65536 bytes (fill_buf + copy + consume): how many bytes it
+     delivers, or the error of read_block *)
+  Definition read_b (s : bst) (n : N) : bst * res N :=
+    let b := s_blk s in
+    if k_cur b <? k_len b then
+      let k := N.min n (k_len b - k_cur b) in
+      (mkBst (s_src s) (s_position s) (mkBlk (k_pos b) (k_size b) (k_len b) (k_cur b + k)), Ok k)
+    else
+      match rnbs (S (length (s_src s))) (s_src s) (s_position s) b with
+      | (src', pos', b', Ok _) =>
+          let k := N.min n (k_len b' - k_cur b') in
+          (mkBst src' pos' (mkBlk (k_pos b') (k_size b') (k_len b') (k_cur b' + k)), Ok k)
+      | (src', pos', b', r) => (mkBst src' pos' b', r)
+      end.
+
+  (* a sequence of read calls: per call (result, position told afterwards) *)
+  Fixpoint reads_b (s : bst) (ns : list N) : list (res N * res N) :=
+    match ns with
+    | [] => []
+    | n :: r => let '(s', x) := read_b s n in (x, blk_vpos (s_blk s')) :: reads_b s' r
     end.
 
   (* Cursor::seek(Start(c)): any c is accepted, reads beyond the end deliver nothing *)
@@ -107,3 +170,7 @@ End SeekBytes.
    one seek anywhere in the bytes of the same file, with C01's inflater *)
 Definition hseek_run (f : file) (fb : list N) (ops : list op) (v : N) : res N * res N :=
   seek_bytes Inflate.inflate fb (blk_of (run_state true f (gzi_of f) (init f) ops)) v.
+
+(* a fresh reader over arbitrary bytes, then read calls that go on after errors *)
+Definition hread_run (fb : list N) (ns : list N) : list (res N * res N) :=
+  reads_b Inflate.inflate (mkBst fb 0 (mkBlk 0 0 0 0)) ns.
